@@ -119,6 +119,17 @@ func c11Name(sc *c11Scenario) string {
 // ---------------------------------------------------------------------------
 // observations
 
+// c11Stop: what the signal thread records about the stop sequence (shared with the HTTP units).
+type c11Stop struct {
+	SigSeen  bool
+	SigAt    time.Duration
+	DrainRet bool          // server.Shutdown() returned
+	RetAt    time.Duration // ... at this virtual time
+	Exited   bool          // the whole stop sequence returned
+	ShutErr  string
+	GaugeSig []int64 // per listener: request_active at the signal
+}
+
 type c11Obs struct {
 	hp        hpObs
 	Downs     []*vfake.Conn
@@ -129,13 +140,7 @@ type c11Obs struct {
 	InFlight  []bool      // ... strictly before the signal
 	PartAtSig []bool      // request i was partly delivered when the signal arrived
 	PhaseSig  []string    // phase of request i at the signal
-	SigSeen   bool
-	SigAt     time.Duration
-	DrainRet  bool          // server.Shutdown() returned
-	RetAt     time.Duration // ... at this virtual time
-	Exited    bool          // the whole stop sequence returned
-	ShutErr   string
-	GaugeSig  []int64 // per listener: request_active at the signal
+	c11Stop
 	GaugeExit []int64
 	Proxies   []*proxy
 	// oracle parts that could not be compared in this execution (with the reason)
@@ -218,13 +223,22 @@ type c11CMFilter struct{}
 func (c11CMFilter) OnCreated(cccb types.ClusterConfigFactoryCb, chcb types.ClusterHostFactoryCb) {}
 
 func c11ListenerConfig(name string, port int, goaway bool) *v2.Listener {
+	var extend map[string]interface{}
+	if goaway {
+		extend = map[string]interface{}{"enable_bolt_goaway": true}
+	}
+	return c11ListenerConfigFor(name, port, string(bolt.ProtocolName), extend)
+}
+
+// c11ListenerConfigFor: a listener whose one filter chain is the proxy for the given downstream = upstream protocol.
+func c11ListenerConfigFor(name string, port int, proto string, extend map[string]interface{}) *v2.Listener {
 	pcfg := map[string]interface{}{
-		"downstream_protocol": string(bolt.ProtocolName),
-		"upstream_protocol":   string(bolt.ProtocolName),
+		"downstream_protocol": proto,
+		"upstream_protocol":   proto,
 		"router_config_name":  hpRouterName,
 	}
-	if goaway {
-		pcfg["extend_config"] = map[string]interface{}{"enable_bolt_goaway": true}
+	if extend != nil {
+		pcfg["extend_config"] = extend
 	}
 	lc := &v2.Listener{
 		ListenerConfig: v2.ListenerConfig{
@@ -278,44 +292,15 @@ func c11Body(sc *c11Scenario, obs *c11Obs) {
 		panic(err)
 	}
 
-	// the server (one per process, as in MOSN: server.NewServer keeps every server it creates in a
-	// package-level list, a server per execution would keep every execution's object graph alive) and
-	// this execution's listeners (real network.listener objects that are never started: nothing is bound)
-	server.SetDrainTime(time.Duration(sc.DrainMs) * time.Millisecond)
-	if c11Server == nil {
-		c11Server = server.NewServer(&server.Config{ServerName: "verifServer"}, c11CMFilter{}, h.cm)
-	}
-	srv := c11Server
-	c11DropListeners(srv) // (left over if the previous execution was torn down)
-	lels := make([]types.ListenerEventListener, sc.Listeners)
-	lcs := make([]*v2.Listener, sc.Listeners)
-	for l := 0; l < sc.Listeners; l++ {
-		// the gauge is process-global (metrics registry, by listener name); executions end by
-		// "process exit" with requests possibly still counted: every new process starts at zero
-		metrics.NewListenerStats(c11ListenerName(l)).Counter(metrics.DownstreamRequestActive).Clear()
-		lcs[l] = c11ListenerConfig(c11ListenerName(l), 2045+l, sc.GoAway)
-		lel, err := srv.AddListener(lcs[l])
-		if err != nil || lel == nil {
-			panic(fmt.Sprintf("AddListener: %v", err))
-		}
-		lels[l] = lel
-	}
+	srv, lels, lcs := c11Listeners(h.cm, sc.DrainMs, sc.Listeners, func(l int) *v2.Listener {
+		return c11ListenerConfig(c11ListenerName(l), 2045+l, sc.GoAway)
+	})
 	defer c11DropListeners(srv)
 
-	// accepted connections: the context activeListener.OnAccept/newConnection build, then the real OnNewConnection
+	// accepted connections
 	obs.Downs = nil
 	for c, l := range sc.Conns {
-		down := vfake.NewServerSide(fmt.Sprintf("down%d", c))
-		ctx := variable.NewVariableContext(context.Background())
-		_ = variable.Set(ctx, types.VariableListenerPort, 2045+l)
-		_ = variable.Set(ctx, types.VariableListenerType, lcs[l].Type)
-		_ = variable.Set(ctx, types.VariableListenerName, c11ListenerName(l))
-		_ = variable.Set(ctx, types.VariableConnDefaultReadBufferSize, 0)
-		_ = variable.Set(ctx, types.VariableAccessLogs, []api.AccessLog{})
-		_ = variable.Set(ctx, types.VariableConnectionID, down.ID())
-		_ = variable.Set(ctx, types.VariableConnection, down)
-		lels[l].OnNewConnection(ctx, down)
-		obs.Downs = append(obs.Downs, down)
+		obs.Downs = append(obs.Downs, c11Accept(lels[l], lcs[l], l, c))
 	}
 	obs.hp.Down = obs.Downs[0]
 	obs.Proxies = append([]*proxy(nil), c11Created...)
@@ -358,30 +343,11 @@ func c11Body(sc *c11Scenario, obs *c11Obs) {
 			case "quiesce":
 				vrt.QuiesceNoTimers()
 			}
-			// --- the signal arrives
-			obs.SigSeen = true
-			obs.SigAt = vrt.Now()
-			for l := 0; l < sc.Listeners; l++ {
-				obs.GaugeSig = append(obs.GaugeSig, c11Gauge(l))
-			}
-			for i := range sc.Requests {
-				obs.PhaseSig[i] = c11Phase(sc, obs, h, i)
-			}
-			// --- stagemanager.Stop(): runGracefulStopStage -> Mosn.Shutdown -> server.Shutdown
-			if err := srv.Shutdown(); err != nil {
-				obs.ShutErr = err.Error()
-			}
-			obs.RetAt = vrt.Now()
-			obs.DrainRet = true
-			// --- Mosn.Close(false): server.Close, Clustermanager.Destroy. server.Close() is
-			// "srv.handler.CloseListeners(); close(srv.stopChan)"; the server object is shared by all
-			// executions of this process and a channel can be closed once, so its first statement is
-			// called directly (stopChan only releases server.Start(), which is not running here)
-			srv.Handler().CloseListeners()
-			if d, ok := h.cm.(interface{ Destroy() }); ok {
-				d.Destroy()
-			}
-			obs.Exited = true
+			c11StopSequence(srv, h.cm, sc.Listeners, &obs.c11Stop, func() {
+				for i := range sc.Requests {
+					obs.PhaseSig[i] = c11Phase(sc, obs, h, i)
+				}
+			})
 		})
 	}
 	clients := func() {
@@ -425,6 +391,77 @@ func c11Body(sc *c11Scenario, obs *c11Obs) {
 	vrt.WaitUntil("process exit (stop sequence returned)", func() bool { return obs.Exited })
 	h.done = true
 	c11Observe(sc, obs, h)
+}
+
+// c11Listeners sets the drain time and gives the process' one server this execution's listeners.
+// The server: one per process, as in MOSN (server.NewServer keeps every server it creates in a
+// package-level list, a server per execution would keep every execution's object graph alive); the
+// listeners: real network.listener objects that are never started, so nothing is bound.
+func c11Listeners(cm types.ClusterManager, drainMs, n int, cfg func(l int) *v2.Listener) (server.Server, []types.ListenerEventListener, []*v2.Listener) {
+	server.SetDrainTime(time.Duration(drainMs) * time.Millisecond)
+	if c11Server == nil {
+		c11Server = server.NewServer(&server.Config{ServerName: "verifServer"}, c11CMFilter{}, cm)
+	}
+	srv := c11Server
+	c11DropListeners(srv) // (left over if the previous execution was torn down)
+	lels := make([]types.ListenerEventListener, n)
+	lcs := make([]*v2.Listener, n)
+	for l := 0; l < n; l++ {
+		// the gauge is process-global (metrics registry, by listener name); executions end by
+		// "process exit" with requests possibly still counted: every new process starts at zero
+		metrics.NewListenerStats(c11ListenerName(l)).Counter(metrics.DownstreamRequestActive).Clear()
+		lcs[l] = cfg(l)
+		lel, err := srv.AddListener(lcs[l])
+		if err != nil || lel == nil {
+			panic(fmt.Sprintf("AddListener: %v", err))
+		}
+		lels[l] = lel
+	}
+	return srv, lels, lcs
+}
+
+// c11Accept: listener l accepts downstream connection c: the context activeListener.OnAccept/newConnection
+// build, then the real OnNewConnection (filter chain factory -> proxy, InitializeReadFilters, conn.Start).
+func c11Accept(lel types.ListenerEventListener, lc *v2.Listener, l, c int) *vfake.Conn {
+	down := vfake.NewServerSide(fmt.Sprintf("down%d", c))
+	ctx := variable.NewVariableContext(context.Background())
+	_ = variable.Set(ctx, types.VariableListenerPort, 2045+l)
+	_ = variable.Set(ctx, types.VariableListenerType, lc.Type)
+	_ = variable.Set(ctx, types.VariableListenerName, c11ListenerName(l))
+	_ = variable.Set(ctx, types.VariableConnDefaultReadBufferSize, 0)
+	_ = variable.Set(ctx, types.VariableAccessLogs, []api.AccessLog{})
+	_ = variable.Set(ctx, types.VariableConnectionID, down.ID())
+	_ = variable.Set(ctx, types.VariableConnection, down)
+	lel.OnNewConnection(ctx, down)
+	return down
+}
+
+// c11StopSequence is what the signal thread does from the instant the signal arrives to process exit.
+func c11StopSequence(srv server.Server, cm types.ClusterManager, listeners int, st *c11Stop, atSignal func()) {
+	// --- the signal arrives
+	st.SigSeen = true
+	st.SigAt = vrt.Now()
+	for l := 0; l < listeners; l++ {
+		st.GaugeSig = append(st.GaugeSig, c11Gauge(l))
+	}
+	if atSignal != nil {
+		atSignal()
+	}
+	// --- stagemanager.Stop(): runGracefulStopStage -> Mosn.Shutdown -> server.Shutdown
+	if err := srv.Shutdown(); err != nil {
+		st.ShutErr = err.Error()
+	}
+	st.RetAt = vrt.Now()
+	st.DrainRet = true
+	// --- Mosn.Close(false): server.Close, Clustermanager.Destroy. server.Close() is
+	// "srv.handler.CloseListeners(); close(srv.stopChan)"; the server object is shared by all
+	// executions of this process and a channel can be closed once, so its first statement is
+	// called directly (stopChan only releases server.Start(), which is not running here)
+	srv.Handler().CloseListeners()
+	if d, ok := cm.(interface{ Destroy() }); ok {
+		d.Destroy()
+	}
+	st.Exited = true
 }
 
 // c11Phase names where request i is in its lifetime (seen from outside the proxy, plus the
